@@ -9,7 +9,7 @@
    the tag name "emph" as "em" (the `external` flag of hyperlinks is NOT erased any more:
    defect F10 is fixed by 8ee055e). *)
 From Pybtex Require Import Base.Prelude Base.PyChar Base.PyStr Model.RtTypes Model.RichText
-  Spec.Flat Spec.FlatOps Proofs.RichText Proofs.RichSlice Proofs.RichOps Proofs.RichEq Proofs.RichWf.
+  Spec.Flat Spec.FlatOps Proofs.RichText Proofs.RichSlice Proofs.RichOps Proofs.RichEq Proofs.RichWf Proofs.RichObs.
 
 (* len(text) is the number of (character, markup) pairs of the rendering *)
 Theorem len_flat : forall t, rlen t = length (flat t).
@@ -132,6 +132,51 @@ Theorem ops_compose_partial : forall e r, spec e = Some r ->
 Proof. exact ops_compose_x. Qed.
 Print Assumptions ops_compose_partial.
 
+(* `needle in text`: exact when the needle lies inside one String part (that is precisely when
+   it is found), never a false positive, and -- documented limitation, finding F17 -- not found
+   when the characters span a part boundary *)
+Theorem contains_flat_partial : forall t p,
+  rcontains t p = true <-> (p = [] /\ is_multipart t = true) \/ (exists s, In s (leaves t) /\ occurs p s).
+Proof. exact contains_exact_lem. Qed.
+Print Assumptions contains_flat_partial.
+
+Theorem contains_sound : forall t p, rcontains t p = true -> occurs (map ACh p) (atoms (flat t)).
+Proof. exact contains_sound_lem. Qed.
+Print Assumptions contains_sound.
+
+Theorem contains_flat_refuted : exists t p, occurs (map ACh p) (atoms (flat t)) /\ rcontains t p = false.
+Proof. exact contains_complete_refuted. Qed.
+Print Assumptions contains_flat_refuted.
+
+(* startswith / endswith (one string or a tuple): only the first / last String leaf is asked *)
+Theorem startswith_flat_partial : forall t ps,
+  rstartswith t ps = match first_leaf t with Some s => existsb (startswith s) ps | None => false end.
+Proof. exact startswith_exact_lem. Qed.
+Print Assumptions startswith_flat_partial.
+
+Theorem startswith_sound : forall t ps, rstartswith t ps = true ->
+  exists p, In p ps /\ prefix_of (map ACh p) (atoms (flat t)).
+Proof. exact startswith_sound_lem. Qed.
+Print Assumptions startswith_sound.
+
+Theorem startswith_flat_refuted : exists t p, prefix_of (map ACh p) (atoms (flat t)) /\ rstartswith t [p] = false.
+Proof. exact startswith_complete_refuted. Qed.
+Print Assumptions startswith_flat_refuted.
+
+Theorem endswith_flat_partial : forall t ps,
+  rendswith t ps = match last_leaf t with Some s => existsb (fun p => startswith (rev s) (rev p)) ps | None => false end.
+Proof. exact endswith_exact_lem. Qed.
+Print Assumptions endswith_flat_partial.
+
+Theorem endswith_sound : forall t ps, rendswith t ps = true ->
+  exists p, In p ps /\ suffix_of (map ACh p) (atoms (flat t)).
+Proof. exact endswith_sound_lem. Qed.
+Print Assumptions endswith_sound.
+
+Theorem endswith_flat_refuted : exists t p, suffix_of (map ACh p) (atoms (flat t)) /\ rendswith t [p] = false.
+Proof. exact endswith_complete_refuted. Qed.
+Print Assumptions endswith_flat_refuted.
+
 (* equality: texts that compare equal render the same, == is reflexive *)
 Theorem eq_sound : forall a b, rt_eqb a b = true -> erase (flat a) = erase (flat b).
 Proof. exact eq_sound_lem. Qed.
@@ -194,3 +239,6 @@ Example regroup_example :
   = mkc KText [RStr (s2l "a"); RTag (s2l "em") [RStr (s2l "b")]; RStr (s2l "c")]
   /\ Forall (fun p => nonempty p = true) [RTag (s2l "em") [RStr (s2l "b")]; RStr (s2l "c")].
 Proof. vm_compute. split; [reflexivity|repeat constructor]. Qed.
+Example contains_example :
+  rcontains (RText [RStr (s2l "Long cat!")]) (s2l "g c") = true /\ In (s2l "Long cat!") (leaves (RText [RStr (s2l "Long cat!")])).
+Proof. vm_compute. split; [reflexivity|now left]. Qed.
